@@ -26,6 +26,9 @@ pub enum X {
     Submit { node: usize, peer: usize, with_enr: bool },
     Attack { plan: Plan },
     Inject { to: usize, src: SocketAddr, bytes: Vec<u8>, tag: &'static str },
+    /// a recorded genuine message datagram of an honest peer is presented to the victim from another socket
+    /// (the peer's IP on another port, or the adversary's address) by a party that holds no key at all
+    PresentRecorded { pick: u32, sibling_port: bool },
 }
 
 #[derive(Clone, Debug)]
@@ -144,6 +147,12 @@ async fn c01_async(ctx: &mut Ctx) {
     if v6 {
         ctx.count("ipv6_runs");
         w.attacker_addrs = vec!["[fd00:9::1]:30303".parse().unwrap(), "[fd00:9::2]:30304".parse().unwrap()];
+        // the adversary's packets sometimes arrive with an IPv4-mapped source (what a socket that is not v6-only
+        // reports for an IPv4 sender)
+        if ctx.tape.choose(3) == 0 {
+            ctx.fault("attacker_ipv4_mapped_source");
+            w.attacker_addrs[0] = "[::ffff:10.9.0.1]:30303".parse().unwrap();
+        }
     }
     for i in 0..n_honest {
         let mut c = NodeCfg::new(8 + i);
@@ -214,6 +223,11 @@ async fn c01_async(ctx: &mut Ctx) {
         };
         let at = ctx.tape.choose(4000) as u64;
         w.schedule(at, Ev::Custom(X::Attack { plan }));
+    }
+
+    for _ in 0..ctx.tape.choose(3) {
+        let at = 200 + ctx.tape.choose(4500) as u64;
+        w.schedule(at, Ev::Custom(X::PresentRecorded { pick: ctx.tape.choose(64), sibling_port: ctx.tape.choose(3) != 0 }));
     }
 
     let mut ledger = ProofLedger::default();
@@ -291,6 +305,18 @@ async fn c01_async(ctx: &mut Ctx) {
                                     ctx.fault("forged_handshake");
                                     w.schedule(1, Ev::Custom(X::Inject { to: plan.victim, src, bytes, tag: "forged-handshake" }));
                                 }
+                                // a second, differently made attempt against the same WHOAREYOU (a rejected handshake leaves
+                                // the challenge outstanding): whatever the first attempt carried must not help the second
+                                if plan.follow_up && !plan.as_self {
+                                    let second = Plan { record: ctx.tape.choose(4), signer: ctx.tape.choose(4).min(2), seq_rel: ctx.tape.choose(3), bad_ephem: false, follow_up: false, ..plan.clone() };
+                                    if let Some(bytes) = craft_handshake(ctx, &w, &adv, &second, &d.authenticated_data, src, &genuine_sigs) {
+                                        let tmo = w.nodes[plan.victim].cfg.request_timeout_ms;
+                                        let at = 2 + ctx.tape.choose((tmo / 2) as u32) as u64;
+                                        ctx.ev(format!("t={} ATTACK second handshake against the same WHOAREYOU in {at}ms {second:?}", now_ms()));
+                                        ctx.fault("second_forged_handshake_same_challenge");
+                                        w.schedule(at, Ev::Custom(X::Inject { to: plan.victim, src, bytes, tag: "forged-handshake-second" }));
+                                    }
+                                }
                             }
                         }
                         PacketKind::Handshake { id_nonce_sig, ephem_pubkey, .. } => {
@@ -360,6 +386,24 @@ async fn c01_async(ctx: &mut Ctx) {
                     pending_attacks.push((plan.clone(), src));
                     note_delivery(&mut ledger, &w, plan.victim, src, &bytes);
                     w.deliver(plan.victim, src, bytes, Origin::Injected { tag: "attacker-random" });
+                }
+                X::PresentRecorded { pick, sibling_port } => {
+                    let vaddr = w.nodes[0].addr;
+                    let cands: Vec<usize> = w.wire.iter().enumerate().filter(|(_, r)| r.from != 0 && r.dst == vaddr && matches!(&r.dec, Some(d) if matches!(d.kind, PacketKind::Message { .. }))).map(|(i, _)| i).collect();
+                    if !cands.is_empty() && w.nodes[0].alive {
+                        let wi = cands[pick as usize % cands.len()];
+                        let r = w.wire[wi].clone();
+                        let src = if sibling_port {
+                            let mut a = r.src;
+                            a.set_port(r.src.port().wrapping_add(11));
+                            a
+                        } else {
+                            adv.addr
+                        };
+                        ctx.fault("recorded_message_presented_from_other_socket");
+                        ctx.ev(format!("t={} ATTACK recorded message #{wi} of n{} presented to the victim from {src}", now_ms(), r.from));
+                        w.deliver(0, src, r.bytes.clone(), Origin::Mutated { wire: wi, how: "presented-from-other-socket" });
+                    }
                 }
                 X::Inject { to, src, bytes, tag } => {
                     if w.nodes[to].alive {
